@@ -2,6 +2,9 @@
 //! cancelling term pairs at arbitrary add/remove positions, ordinary multi-way merges,
 //! identical sides, near-cancellations; 1/3/5/7 terms; line and word level; both settings.
 use bstr::BString;
+use jj_lib::diff::CompareBytesExactly;
+use jj_lib::diff::find_line_ranges;
+use jj_lib::diff::verif_collect_unchanged_words;
 use jj_lib::files;
 use jj_lib::files::FileMergeHunkLevel;
 use jj_lib::files::MergeResult;
@@ -146,6 +149,12 @@ fn main() {
                 None => (false, vec![]),
             };
             let tried: Option<Vec<u8>> = r_try.flatten().map(|c| c.to_vec());
+            // the hypothesis of the laws on the matching: identical token lists match identically
+            let self_identity = terms.iter().all(|x| {
+                let ranges = find_line_ranges(x);
+                let m = jjv::catch(|| verif_collect_unchanged_words(x, &ranges, x, &ranges, CompareBytesExactly));
+                m == Some((0..ranges.len()).map(|k| (k, k)).collect())
+            });
             let term = coq::app(
                 "C04.mk_case",
                 &[
@@ -156,11 +165,12 @@ fn main() {
                     coq::b(mh_resolved),
                     coq::list(mh.iter(), |h| blist(h)),
                     coq::opt(tried.as_ref(), |c| coq::bytes(c)),
+                    coq::b(self_identity),
                     coq::b(panicked),
                 ],
             );
             let outcome = if merged.len() == 1 { "resolved" } else { "conflict" };
-            let shape = format!("{} terms={} {}", mode_name, terms.len(), outcome);
+            let shape = format!("{} terms={} {}", mode_name, if terms.len() >= 5 { ">=5".to_string() } else { terms.len().to_string() }, outcome);
             ctx.count(&format!("pool {}", pool.name()));
             ctx.count(&format!("level {} same_change {}", if word { "word" } else { "line" }, if accept { "accept" } else { "keep" }));
             ctx.emit(i, term, terms.len() >= 3, &shape);
